@@ -225,6 +225,7 @@ func correspondence(c *hx.Ctx) {
 		c.Stat("corr.leanreader")
 		c.Distinct("image|" + cf.String() + "|" + root.describe())
 	}
+	codecCases(c, r.Fork()) // inode and directory-table codecs against the real encoders / decoders
 	// ---- inode reference arithmetic -------------------------------------------------------------------
 	n = c.N(200, 8000)
 	for i := 0; i < n; i++ {
